@@ -601,9 +601,9 @@ def corner_modules():
         out.append((f"collide-{k}", m_collide(k), "name-capture" if cap else None, "name-capture" if cap else None))
     out.append(("finding-forward-capture", m_forward_capture(), "name-capture", "name-capture"))
     out += [("finding-inline-asm", m_inline_asm(), "inline-asm", "inline-asm"),
-            ("finding-float-inf", m_float(float("inf")), "float-text", None),
-            ("finding-float-neginf", m_float(float("-inf")), "float-text", None),
-            ("finding-float-nan", m_float(float("nan")), "float-text", None),
+            ("float-inf", m_float(float("inf")), None, None),
+            ("float-neginf", m_float(float("-inf")), None, None),
+            ("float-nan", m_float(float("nan")), None, None),
             ("finding-name-capture-c", m_capture_c(), "name-capture", "name-capture"),
             ("finding-name-capture", m_capture_min(), "name-capture", "name-capture"),
             ("finding-identifier-dot", m_identifier("a.b"), "identifier", None),
@@ -638,7 +638,7 @@ def decorate(rng, g, cover):
         for _ in range(rng.randint(0, 3)):
             kind = rng.random()
             if kind < 0.5:
-                c = ir.Const(rng.choice(SPECIAL_FLOATS + [rng.uniform(-1e9, 1e9), rng.random() * 10 ** rng.randint(-300, 300)]),
+                c = ir.Const(rng.choice(SPECIAL_FLOATS + NONFINITE + [rng.uniform(-1e9, 1e9), rng.random() * 10 ** rng.randint(-300, 300)]),
                              "fc", rng.choice([ir.f64, ir.f32]))
                 cover("float-const")
             else:
